@@ -87,10 +87,8 @@ theorem C08_dropped_operand_collides {L τ : Type} (S : Scheme L τ) (c p : Nat)
 /-- prefix groups whose members are not separated by the rule shape, with the reason they are kept apart
     (or not) by something the table cannot see -/
 def exemptPrefixes : List String :=
-  [ -- OPEN FINDING (S1): 25 classes whose `operation` is a staticmethod *named* "operation" share the prefix
-    -- "operation"; equal operand lists give equal names (RenameSeries(s, False, False) vs
-    -- MemoryUsagePerPartition(s, False, False); RenameFrame(df, {"a":"x"}) vs ColumnsSetter(df, {"a":"x"}))
-    "operation",
+  [ -- (the former group "operation" — D52 — is gone: /repo 5ae5dc5 uses the class name when `operation` is a method
+    --  of that very name; should such a group reappear it is NOT exempt and this table obligation fails)
     -- AddPrefix/AddPrefixSeries, AddSuffix/AddSuffixSeries: chosen by the frame operand's dimension
     "add_prefix", "add_suffix",
     -- Projection(frame, <column labels>) / Filter(frame, <predicate expression>) / AlignGetitem(frame, <expression>):
@@ -134,12 +132,6 @@ theorem C08_injective_on_table {L τ : Type} (S : Scheme L τ) (hS : S.rules = r
     token), and the free scheme over the live table satisfies `hS` by definition -/
 example : 250 < (Generated.nameRows.filter (goodRow exemptPrefixes)).length := by decide +kernel
 example : (freeScheme (ruleOf Generated.nameRows)).rules = ruleOf Generated.nameRows := rfl
-
-/-- the exempt group "operation" really contains unseparated pairs (finding S1 is visible in the table) -/
-theorem C08_operation_group_unseparated :
-    ∃ g ∈ Generated.nameGroups, ∃ a ∈ g.2, ∃ b ∈ g.2, a.pfx = "operation" ∧ a.id < b.id ∧
-      a.cls = "dask_expr._expr.MemoryUsagePerPartition" ∧ b.cls = "dask_expr._expr.RenameSeries" ∧
-      separated a.rule b.rule = false := by decide +kernel
 
 /-! ### non-vacuity: the free scheme satisfies A1/A2' and a three-class table is complete -/
 
